@@ -287,7 +287,14 @@ let run_file file =
 let key_of_logs (logs : (int * int * string) list) : string =
   (* per body: the last result recorded for every pc (await polls collapse) *)
   let tbl = Hashtbl.create 16 in
-  List.iter (fun (b, pc, r) -> Hashtbl.replace tbl (b, pc) r) logs;
+  let is_num r = r <> "" && String.for_all (fun c -> c >= '0' && c <= '9') r in
+  List.iter
+    (fun (b, pc, r) ->
+      (* a second result for the same instruction is a further poll of an await loop: keep the last
+         value and the one bit "an earlier poll failed" (rendered like R's ROk) *)
+      let r' = if Hashtbl.mem tbl (b, pc) && is_num r then "ok " ^ r else r in
+      Hashtbl.replace tbl (b, pc) r')
+    logs;
   let items = Hashtbl.fold (fun (b, pc) r acc -> (b, pc, r) :: acc) tbl [] in
   let items = List.sort compare items in
   let bodies = List.sort_uniq compare (List.map (fun (b, _, _) -> b) items) in
